@@ -249,6 +249,8 @@ def run_parallel(cmds, env=None, timeout=None, cwd=None):
 
 
 def regress_files(prop):
+    if os.environ.get('VERIF_NO_REGRESS'):
+        return []      # sensitivity experiments only: is the generator alone able to find what a witness pins?
     return sorted(glob.glob(os.path.join(CORPUS, 'regress', prop, '*.json')))
 
 
